@@ -225,7 +225,7 @@ func firstDiff(a, b string) string {
 }
 
 func TestPropRepeat(t *testing.T) {
-	vk.Main(t, vk.Spec[repeatCase]{ID: "C08", Facet: "repeat", Quick: 700, Thorough: 4000, Gen: genRepeat, Check: checkRepeat, Journal: true,
+	vk.Main(t, vk.Spec[repeatCase]{ID: "C08", Facet: "repeat", Quick: 1200, Thorough: 4000, Gen: genRepeat, Check: checkRepeat, Journal: true,
 		Rule: "tie-rich profiles (values from {0,±1,±2}, mirrored samples with negated values, equal names in different files / at different addresses, near-duplicate frames, duplicate label values) x every report option of C04 x trim x format (top,text,tree,peek,dot,callgrind,tags,traces,raw,proto,topproto); each command is run 6 times in one process (Go re-randomises map iteration on every range) and all outputs must be byte-identical; non-trivial = two samples with equal magnitude of the selected value"})
 }
 
